@@ -50,3 +50,42 @@ fn kani_child_index_is_rank() {
         assert!(r == Some(rank));
     }
 }
+
+// COMPLETE (every pair of keys): the 52 chunks of a key determine it - two keys that agree on chunk_at at every depth
+// 0..=51 are equal.  This is the injectivity axiom the Verus unit `trie` assumes about chunk_at
+// (axiom_chunks_determine_key): it bounds the trie depth and makes split_leaves terminate.
+#[kani::proof]
+#[kani::unwind(53)]
+fn kani_chunks_determine_the_key() {
+    let k1: Address = kani::any();
+    let k2: Address = kani::any();
+    let mut same = true;
+    let mut d = 0usize;
+    while d < 52 {
+        if chunk_at(&k1, d) != chunk_at(&k2, d) {
+            same = false;
+        }
+        d += 1;
+    }
+    assert!(!same || k1 == k2);
+}
+
+// COMPLETE (every bitmap, every chunk): the popcount of the bitmap bits below `chunk` - the expression used by
+// Branch::child_index and Branch::insert_child - is the number of occupied chunks below it
+// (axiom_popcount_is_rank of the Verus unit `trie`, about u32::count_ones).
+#[kani::proof]
+#[kani::unwind(34)]
+fn kani_popcount_below_is_rank() {
+    let bitmap: u32 = kani::any();
+    let chunk: u32 = kani::any();
+    kani::assume(chunk < FANOUT);
+    let mut rank = 0u32;
+    let mut c = 0u32;
+    while c < chunk {
+        if bitmap & (1 << c) != 0 {
+            rank += 1;
+        }
+        c += 1;
+    }
+    assert!((bitmap & ((1 << chunk) - 1)).count_ones() == rank);
+}
